@@ -251,15 +251,16 @@ def FileOk (cfg : Cfg) (st : LogSt) (cR : Conn) : Prop := st.file = cR.cur ∨ (
 
 /-- Replaying the entries written for one command `c` that ran in database `d` (an optional SELECT, then `c`):
     the replayed store agrees with the live one after `c`, and the reader is where the tracking says. -/
-theorem replay_entries_sim (q : Quirks) (cfg : Cfg) (st : LogSt) (d : Nat) (hd : d < 16)
-    (c : List Bytes) (hns : nameOf c ≠ "SELECT") (hnr : effName c ≠ "SPOP")
+theorem replay_entries_sim_gen (q : Quirks) (cfg : Cfg) (st : LogSt) (d : Nat) (hd : d < 16)
+    (c : List Bytes) (hns : nameOf c ≠ "SELECT")
     (hdb : cfg.logSelect = true ∨ d = st.file)
-    (sL : Store) (nowL : Nat) (obsL : Option (List Bytes)) (hqL : purge nowL (getDb sL d) = getDb sL d)
-    (cR : Conn) (hfile : FileOk cfg st cR) (hA : Agree sL cR.store)
+    (sL' : Store)
+    (cR : Conn) (hfile : FileOk cfg st cR)
+    (hsim : ∀ (nowR : Nat) (obsR : Option (List Bytes)), purge nowR (getDb cR.store d) = getDb cR.store d →
+      Agree sL' (KS.step q cR.store d nowR (effCmd c) obsR).1)
     (es : List REntry) (hes : es.map (·.cmd) = selFor cfg st d ++ [c]) (hqR : quietReplay q cR es = true) :
-    Agree (KS.step q sL d nowL (effCmd c) obsL).1 (replayFrom q cR es).store ∧
+    Agree sL' (replayFrom q cR es).store ∧
       (replayFrom q cR es).cur = fileAfter cfg st d := by
-  have hname : nameOf (effCmd c) ≠ "SPOP" := by rw [nameOf_effCmd]; exact hnr
   by_cases hsel : cfg.logSelect = true ∧ st.file ≠ d
   · -- a SELECT is emitted first
     have hsf : selFor cfg st d = [selectCmd d] := by unfold selFor; simp [hsel]
@@ -277,7 +278,7 @@ theorem replay_entries_sim (q : Quirks) (cfg : Cfg) (st : LogSt) (d : Nat) (hd :
       rw [execRaw_not_select q _ e2.now e2.obs c hns]
       have hq2 := quietStep_eq hqR.2
       simp only at hq2 ⊢
-      refine ⟨step_sim q sL cR.store hA d nowL e2.now (effCmd c) obsL e2.obs hqL hq2 (Or.inl hname), ?_⟩
+      refine ⟨hsim e2.now e2.obs hq2, ?_⟩
       unfold fileAfter; simp [hsel.1]
     · simp at hes
   · -- the reader already is in database `d`
@@ -304,12 +305,57 @@ theorem replay_entries_sim (q : Quirks) (cfg : Cfg) (st : LogSt) (d : Nat) (hd :
       have hq2 := quietStep_eq hqR
       rw [hcur] at hq2
       simp only [hcur]
-      refine ⟨step_sim q sL cR.store hA d nowL e1.now (effCmd c) obsL e1.obs hqL hq2 (Or.inl hname), ?_⟩
+      refine ⟨hsim e1.now e1.obs hq2, ?_⟩
       unfold fileAfter
       split
       · rfl
       · rw [hfile, hcur]
     · simp at hes
+
+/-- (the usual instance: the live side ran the same command) -/
+theorem replay_entries_sim (q : Quirks) (cfg : Cfg) (st : LogSt) (d : Nat) (hd : d < 16)
+    (c : List Bytes) (hns : nameOf c ≠ "SELECT") (hnr : effName c ≠ "SPOP")
+    (hdb : cfg.logSelect = true ∨ d = st.file)
+    (sL : Store) (nowL : Nat) (obsL : Option (List Bytes)) (hqL : purge nowL (getDb sL d) = getDb sL d)
+    (cR : Conn) (hfile : FileOk cfg st cR) (hA : Agree sL cR.store)
+    (es : List REntry) (hes : es.map (·.cmd) = selFor cfg st d ++ [c]) (hqR : quietReplay q cR es = true) :
+    Agree (KS.step q sL d nowL (effCmd c) obsL).1 (replayFrom q cR es).store ∧
+      (replayFrom q cR es).cur = fileAfter cfg st d := by
+  have hname : nameOf (effCmd c) ≠ "SPOP" := by rw [nameOf_effCmd]; exact hnr
+  exact replay_entries_sim_gen q cfg st d hd c hns hdb _ cR hfile
+    (fun nowR obsR hq2 => step_sim q sL cR.store hA d nowL nowR (effCmd c) obsL obsR hqL hq2 (Or.inl hname)) es hes hqR
+
+theorem nameOf_delCmd (key : Bytes) : nameOf (delCmd key) = "DEL" := by
+  simp only [delCmd, nameOf]
+  decide
+
+theorem erase_of_lookup_none {db : Db} {k : Bytes} (h : lookup db k = none) : erase db k = db := by
+  induction db with
+  | nil => rfl
+  | cons p t ih =>
+    obtain ⟨k', e⟩ := p
+    simp only [lookup] at h
+    simp only [erase]
+    by_cases hk : k' = k
+    · simp [hk] at h
+    · simp only [hk, if_false] at h ⊢
+      rw [ih h]
+
+/-- `DEL key` removes the key if it is there — whenever it runs -/
+theorem step_del_single (q : Quirks) (s : Store) (i now : Nat) (key : Bytes) (obs : Option (List Bytes)) :
+    (step q s i now (delCmd key) obs).1 = setDb s i (erase (purge now (getDb s i)) key) := by
+  have hn := nameOf_delCmd key
+  have hf : nameOf (delCmd key) ≠ "FLUSHALL" := by rw [hn]; decide
+  unfold delCmd at hn hf ⊢
+  rw [step_cons_ne q s i now _ [key] obs hf, hn]
+  congr 1
+  have h1 : stepDb q (purge now (getDb s i)) now "DEL" [key] obs = cmdDel (purge now (getDb s i)) [key] := rfl
+  rw [h1]
+  unfold cmdDel
+  simp only [List.isEmpty_cons, Bool.false_eq_true, if_false, delKeys]
+  cases hl : lookup (purge now (getDb s i)) key with
+  | none => simp [erase_of_lookup_none hl]
+  | some e => simp
 
 /-! ## One event, then a whole history -/
 
@@ -333,7 +379,7 @@ theorem map_eq_nil' {α β : Type} {f : α → β} {l : List α} (h : l.map f = 
 theorem ev_sim (q : Quirks) (cfg : Cfg) (hwf : cfg.wf = true) (ev : Ev) (cL cR : Conn) (st : LogSt)
     (hI : Inv cfg cL st cR) (es : List REntry) (hes : es.map (·.cmd) = (logEv cfg st ev).1)
     (hin : inModel ev = true) (hcov : covered cfg st ev = true)
-    (hqL : quietStep cL (evDb cL ev) (evNow ev) = true) (hqR : quietReplay q cR es = true)
+    (hqL : quietEv cL ev = true) (hqR : quietReplay q cR es = true)
     (hok : StoreOk cL.store) (hdraw : drawOk q cL ev = true) :
     Inv cfg (execEv q cL ev) (logEv cfg st ev).2 (replayFrom q cR es) := by
   have hselw : isWrite cfg.writes "SELECT" = false := by
@@ -342,7 +388,7 @@ theorem ev_sim (q : Quirks) (cfg : Cfg) (hwf : cfg.wf = true) (ev : Ev) (cL cR :
     simpa using hwf
   cases ev with
   | cmd ve now obs raw =>
-    have hqL' := quietStep_eq hqL
+    have hqL' := quietStep_eq (show quietStep cL (evDb cL (.cmd ve now obs raw)) (evNow (.cmd ve now obs raw)) = true from hqL)
     simp only [evDb, evNow] at hqL'
     by_cases hs : nameOf raw = "SELECT"
     · -- SELECT: connection state only, never an entry
@@ -434,7 +480,7 @@ theorem ev_sim (q : Quirks) (cfg : Cfg) (hwf : cfg.wf = true) (ev : Ev) (cL cR :
         rw [step_readonly q cL.store cL.cur now (effCmd raw) obs hqL' hro]
         exact ⟨hI.agree, hI.conn, hI.file, hI.lt⟩
   | wake db now left key =>
-    have hqL' := quietStep_eq hqL
+    have hqL' := quietStep_eq (show quietStep cL (evDb cL (.wake db now left key)) (evNow (.wake db now left key)) = true from hqL)
     simp only [evDb, evNow] at hqL'
     simp only [covered, Bool.decide_and, Bool.and_eq_true, decide_eq_true_eq, Bool.decide_or, Bool.or_eq_true] at hcov
     simp only [inModel, decide_eq_true_eq] at hin
@@ -449,6 +495,26 @@ theorem ev_sim (q : Quirks) (cfg : Cfg) (hwf : cfg.wf = true) (ev : Ev) (cL cR :
       unfold effName; rw [hun]; simp only; rw [hname]; cases left <;> decide
     have := replay_entries_sim q cfg st db hin (popCmd left key) hns hnr hdb cL.store now none hqL' cR hI.file hI.agree es hes hqR
     rw [heff] at this
+    simp only [execEv]
+    exact ⟨this.1, hI.conn, Or.inl this.2.symm, hI.lt⟩
+  | expire db now key =>
+    -- time has passed: the live server dropped `key`; the file says `DEL key`, which does the same whenever it is replayed
+    simp only [covered, Bool.decide_and, Bool.and_eq_true, decide_eq_true_eq, Bool.decide_or, Bool.or_eq_true] at hcov
+    simp only [inModel, decide_eq_true_eq] at hin
+    obtain ⟨hle, hdb⟩ := hcov
+    simp only [logEv, hle, if_true] at hes ⊢
+    have hname : nameOf (delCmd key) = "DEL" := nameOf_delCmd key
+    have hns : nameOf (delCmd key) ≠ "SELECT" := by rw [hname]; decide
+    have hne : nameOf (delCmd key) ≠ "EVAL" := by rw [hname]; decide
+    have hun : unwrap (delCmd key) = none := unwrap_of_name_ne _ hne
+    have heff : effCmd (delCmd key) = delCmd key := by unfold effCmd; rw [hun]; rfl
+    have hsim : ∀ (nowR : Nat) (obsR : Option (List Bytes)), purge nowR (getDb cR.store db) = getDb cR.store db →
+        Agree (setDb cL.store db (erase (getDb cL.store db) key)) (KS.step q cR.store db nowR (effCmd (delCmd key)) obsR).1 := by
+      intro nowR obsR hq
+      rw [heff, step_del_single q cR.store db nowR key obsR, hq]
+      apply hI.agree.setDb
+      rw [normDb_erase, normDb_erase, hI.agree.getDb db]
+    have := replay_entries_sim_gen q cfg st db hin (delCmd key) hns hdb _ cR hI.file hsim es hes hqR
     simp only [execEv]
     exact ⟨this.1, hI.conn, Or.inl this.2.symm, hI.lt⟩
 
@@ -473,6 +539,9 @@ theorem execEv_ok (q : Quirks) (c : Conn) (ev : Ev) (h : StoreOk c.store) : Stor
   | wake db now left key =>
     simp only [execEv]
     exact step_pres q _ _ _ _ _ h
+  | expire db now key =>
+    simp only [execEv]
+    exact setDb_ok h db (DbOk_erase key (getDb_ok h db))
 
 theorem inv_init (cfg : Cfg) : Inv cfg {} {} {} := ⟨rfl, rfl, Or.inl rfl, by decide⟩
 
@@ -561,12 +630,14 @@ theorem drawsOk_of_no_spop (q : Quirks) : ∀ (h : List Ev) (c : Conn),
         have := hn raw (by simp [rawsOf])
         simp [drawOk, this]
       | wake db now left key => rfl
+      | expire db now key => rfl
     · apply ih
       intro raw hraw
       apply hn
       cases ev with
       | cmd ve now obs raw' => simp [rawsOf, hraw]
       | wake db now left key => simpa [rawsOf] using hraw
+      | expire db now key => simpa [rawsOf] using hraw
 
 /-! ## Corollaries used by the property theorems -/
 
@@ -575,20 +646,25 @@ theorem drawsOk_of_no_spop (q : Quirks) : ∀ (h : List Ev) (c : Conn),
 /-- with SELECT tracking, pops made for blocking clients logged and a table that contains every mutating name and
     EVAL, every event is covered except a random write logged verbatim (SPOP inside a script; any SPOP without
     by-effect logging) -/
-theorem coveredFrom_tracked (w : List String) (eff : Bool) (hall : ∀ n ∈ Spec.writeNames, n ∈ w) (heval : "EVAL" ∈ w) :
+def isExpire : Ev → Bool
+  | .expire _ _ _ => true
+  | _ => false
+
+theorem coveredFrom_tracked (w : List String) (eff exp : Bool) (hall : ∀ n ∈ Spec.writeNames, n ∈ w) (heval : "EVAL" ∈ w) :
     ∀ (h : List Ev) (st : LogSt),
       (∀ raw, raw ∈ rawsOf h → ¬ Spec.randomWrites.contains (effName raw) = true ∨ (eff = true ∧ nameOf raw = "SPOP")) →
-      coveredFrom (Cfg.treeE w true true eff) st h = true := by
+      (∀ ev ∈ h, isExpire ev = true → exp = true) →
+      coveredFrom (Cfg.treeX w true true eff exp) st h = true := by
   intro h
   induction h with
-  | nil => intro st _; rfl
+  | nil => intro st _ _; rfl
   | cons ev t ih =>
-    intro st hr
+    intro st hr hx
     simp only [coveredFrom, Bool.and_eq_true]
-    refine ⟨?_, ih _ (fun raw hraw => hr raw ?_)⟩
+    refine ⟨?_, ih _ (fun raw hraw => hr raw ?_) (fun e he => hx e (by simp [he]))⟩
     · cases ev with
       | cmd ve now obs raw =>
-        simp only [covered, Cfg.treeE, decide_eq_true_eq]
+        simp only [covered, Cfg.treeX, decide_eq_true_eq]
         by_cases hs : nameOf raw = "SELECT"
         · exact Or.inl hs
         · right
@@ -612,11 +688,15 @@ theorem coveredFrom_tracked (w : List String) (eff : Bool) (hall : ∀ n ∈ Spe
             · left; simpa using h
             · right; exact h
       | wake db now left key =>
-        simp [covered, Cfg.treeE]
+        simp [covered, Cfg.treeX]
+      | expire db now key =>
+        have := hx (.expire db now key) (by simp) rfl
+        simp [covered, Cfg.treeX, this]
     · cases ev with
       | cmd ve now obs raw => simp [rawsOf, hraw]
       | wake db now left key => simpa [rawsOf] using hraw
+      | expire db now key => simpa [rawsOf] using hraw
 
-theorem fixed_eq_treeE (w : List String) : Cfg.fixed w = Cfg.treeE w true true true := rfl
+theorem fixed_eq_treeX (w : List String) : Cfg.fixed w = Cfg.treeX w true true true true := rfl
 
 end Ferrous.Aof
